@@ -6,6 +6,14 @@ Decided by TLC on explicit TLA+ modules:
   spec/StoreImpl.tla   implementation-shaped model of store.c, checked to refine StoreAbs
   spec/StoreGen.tla    exports every short operation history (technique B: replay)
   spec/TraceStore.tla  validates every trace recorded from the real allocator (technique C)
+  spec/StoreTree.tla   the allocator's own housekeeping: the free tree (btree.c inside store.c) with its node and
+                       carrier pools carved from housekeeping pages, refining the map StoreImpl assumes;
+                       exhaustive at small constants
+  spec/StoreTreeGen.tla  behaviours of it at the REAL constants (MixedBTreeT = 16, 5 nodes / 256 carriers per page):
+                       hundreds of distinct free sizes, freed / re-allocated / merged in several orders; exported
+                       and replayed into the real allocator (gen/store_scale.py)
+  spec/StoreSect.tla   the arithmetic of a fresh section for a large request; exports every request size within
+                       two quanta of each page-count boundary, replayed as requests served from fresh sections
 Bound to the code by harness/store_drv.c, linked with the objects built from /repo's working tree.
 """
 import json
@@ -20,6 +28,7 @@ import vlib
 
 sys.path.insert(0, os.path.join(vlib.VERIF, "gen"))
 import store_scripts  # noqa: E402
+import store_scale  # noqa: E402
 
 META = {
     "title": "The storage manager never hands out or reclaims live memory",
@@ -74,9 +83,9 @@ def _close_trace(path, rc, timed_out):
                 fh.write('{"ev":"Fault","sig":%d,"during":"driver exit %s"}\n' % (-rc if (rc or 0) < 0 else 0, rc))
 
 
-def _validate(path, timeout=1500):
+def _validate(path, timeout=1500, cfg="TraceStore"):
     """TLC on TraceStore with the trace; returns (verdict, index, why, result)."""
-    r = vlib.tlc("TraceStore", "TraceStore", workers=1, timeout=timeout, xmx="3g", env={"TRACE": path})
+    r = vlib.tlc("TraceStore", cfg, workers=1, timeout=timeout, xmx="3g", env={"TRACE": path})
     if r.error or r.violated:
         return "error", None, (r.error or ("TraceStore invariant %s violated" % r.violated)), r
     for line in reversed(r.printed):
@@ -135,6 +144,10 @@ def model_runs(tier, work):
     else:
         runs = [("StoreAbsMC", "StoreAbsMC", True, 900, 6, "abs"),                # heap 6, <= 2 live, sizes 1..3
                 ("StoreAbsMC", "StoreAbsMCDeep", False, 1700, 6, "abs")]          # heap 6, <= 3 live
+    # the free tree with its pools: every history over 5 sizes (T = 2, 2 nodes / 2 carriers per page) ...
+    runs.append(("StoreTree", "StoreTreeQ" if tier == "quick" else "StoreTreeDeep", False, 1700, 4 if tier == "quick" else 8, "tree"))
+    # ... and scenario behaviours at the same small constants that reach trees of height 3 and 4
+    runs.append(("StoreTreeGen", "StoreTreeGenSmall", False, 900, 4, "treegen"))
     runs.append(("StoreImpl", "StoreImplQ", False, 900, 4, "impl"))            # pointers/roots/recode, 4 operations
     runs.append(("StoreImpl", "StoreImplShapeQ", False, 900, 4, "impl"))       # alloc/free/resize/collect, 5 operations
     if tier == "thorough":
@@ -159,8 +172,20 @@ def model_apply(chk, results, probes):
     for (mod, cfg, cov, to, w, kind), r in results:
         chk.add_tlc(cfg, r)
         if r.violated:
-            which = "property-level model StoreAbs" if kind == "abs" else "implementation-shaped model StoreImpl"
+            which = {"abs": "property-level model StoreAbs", "impl": "implementation-shaped model StoreImpl",
+                     "tree": "housekeeping model StoreTree", "treegen": "housekeeping model StoreTree (scenario behaviours)"}[kind]
             chk.violation("the %s violates %s" % (which, r.violated), r.trace_text, key={"model": cfg, "inv": r.violated})
+        elif kind == "tree" and r.distinct < 10000:
+            raise vlib.MachineryError("%s: only %d distinct states (vacuous model)" % (cfg, r.distinct))
+        elif kind == "treegen":
+            recs = store_scale.records(r.printed)
+            got = set()
+            for rec in recs:
+                got |= set(rec["labels"])
+            missing = [g for g in TREE_LABELS if g not in got]
+            if not recs or missing:
+                raise vlib.MachineryError("%s: sub-cases of the free tree never taken (vacuous model): %s" % (cfg, missing))
+            chk.extra["storetree_subcases_reached"] = TREE_LABELS
         if cov:
             missing = [a for a in MC_ACTIONS if r.coverage.get(a, (0, 0))[1] == 0]
             if missing:
@@ -388,6 +413,178 @@ def random_histories(chk, drv, work, tier):
     chk.extra["random"] = dict(tot, histories=nhist, steps_each=steps)
 
 
+# --------------------------------------------------------------------------- (D) housekeeping at scale
+
+TREE_LABELS = ["node:new-page", "node:further-page", "node:last-of-page", "node:recycled",
+               "car:new-page", "car:further-page", "car:last-of-page", "car:recycled",
+               "ins:split-leaf", "ins:split-interior", "ins:root-grows", "ins:root-grows-again",
+               "del:from-leaf", "del:interior-by-predecessor", "del:interior-by-successor", "del:interior-unsplit",
+               "del:rotate-down", "del:rotate-up", "del:unsplit-leaf", "del:unsplit-interior", "del:unsplit-with-left",
+               "del:root-shrinks", "link:new-size", "link:size-present", "unlink:size-goes", "unlink:size-stays",
+               "get:split-entry-reused", "get:split-delete-insert", "get:whole-size-goes",
+               "put:merge-none", "put:merge-next", "put:merge-prev", "put:merge-both"]
+# what the behaviours at the real constants must reach together (the boundary situations of the class)
+SCALE_LABELS = ["node:further-page", "node:last-of-page", "node:recycled", "car:further-page", "car:last-of-page",
+                "car:recycled", "ins:split-leaf", "ins:split-interior", "ins:root-grows", "ins:root-grows-again",
+                "del:rotate-down", "del:rotate-up", "del:unsplit-leaf", "del:unsplit-interior", "del:root-shrinks",
+                "del:interior-by-predecessor", "del:interior-by-successor", "get:split-entry-reused",
+                "get:split-delete-insert", "put:merge-both"]
+
+
+def _gen_cfg(work, base, scens):
+    cfg = open(os.path.join(vlib.SPEC, base + ".cfg")).read()
+    cfg = cfg.replace("Scens <- ScensMid0", "Scens <- %s" % scens)
+    path = os.path.join(work, "gen-%s.cfg" % scens)
+    with open(path, "w") as fh:
+        fh.write(cfg)
+    return path
+
+
+def _notes(path):
+    out = {"treepages": 0, "carrierpages": 0, "freesizes": 0}
+    try:
+        with open(path) as fh:
+            for line in fh:
+                if line.startswith('{"ev":"Note"'):
+                    e = json.loads(line)
+                    for k in out:
+                        out[k] = max(out[k], e.get(k, 0))
+    except (OSError, ValueError):
+        pass
+    return out
+
+
+def scale_runs(tier, work, drv, seed):
+    """Stage D: TLC exports behaviours at the real constants (free tree: StoreTreeGen; fresh sections:
+    StoreSect); each is turned into a script, run against the real allocator in a fresh process, and the
+    recorded trace is validated by TLC (TraceStore).  Runs in its own thread; scale_apply() books the
+    results in the main thread."""
+    v = seed % 3
+    if tier == "quick":
+        groups = [("tree", "ScensBig%d" % v, 2, 900), ("tree", "ScensMid%d" % v, 5, 900), ("sect", "StoreSect", 2, 300)]
+        nsect = 2
+    else:
+        groups = [("tree", "ScensThorough", PAR, 1700), ("tree", "ScensBig%d" % v, 2, 900),
+                  ("tree", "ScensMid%d" % ((v + 1) % 3), 5, 900), ("sect", "StoreSectDeep", 2, 600)]
+        nsect = 6
+    drv_to = 600 if tier == "quick" else 1500
+
+    def run_one(job):
+        rc, err, to = _run_drv(drv, ["replay", job["script"], job["trace"], job["gc"], 400000], timeout=drv_to)
+        _close_trace(job["trace"], rc, to)
+        if rc == 2:
+            return job, ("error", None, "driver usage/IO error: " + err, None)
+        return job, _validate(job["trace"], cfg="TraceStoreScale")
+
+    def group(g):
+        kind, name, workers, to = g
+        jobs = []
+        if kind == "tree":
+            r = vlib.tlc("StoreTreeGen", _gen_cfg(work, "StoreTreeGenQ", name), workers=workers, timeout=to, xmx="6g")
+            recs = store_scale.records(r.printed) if not (r.error or r.violated) else []
+            for i, rec in enumerate(recs):
+                base = os.path.join(work, "scale-%s" % rec["name"])
+                with open(base + ".txt", "w") as fh:
+                    fh.write(store_scale.tree_script(rec, seed))
+                jobs.append({"kind": "tree", "name": rec["name"], "gc": (i + seed) % 2, "script": base + ".txt",
+                             "trace": base + ".ndjson", "rec": {k: rec[k] for k in rec if k != "ops"}, "nops": len(rec["ops"])})
+        else:
+            r = vlib.tlc("StoreSect", name, workers=workers, timeout=to, xmx="3g")
+            entries = store_scale.sect_entries(r.printed) if not (r.error or r.violated) else []
+            for variant in range(nsect if entries else 0):
+                base = os.path.join(work, "sect-%d" % variant)
+                text, idmap = store_scale.sect_script(entries, seed, variant)
+                with open(base + ".txt", "w") as fh:
+                    fh.write(text)
+                jobs.append({"kind": "sect", "name": "sect-%d" % variant, "gc": 1 if variant >= 4 else 0, "script": base + ".txt",
+                             "trace": base + ".ndjson", "entries": entries, "nops": text.count("\n")})
+        with ThreadPoolExecutor(max_workers=max(1, min(PAR, len(jobs)))) as ex:
+            results = list(ex.map(run_one, jobs))
+        return g, r, results
+
+    with ThreadPoolExecutor(max_workers=len(groups)) as ex:
+        return list(ex.map(group, groups))
+
+
+def scale_apply(chk, res):
+    labels, allok = set(), True
+    info = {"tree_behaviours": 0, "tree_operations": 0, "sect_scripts": 0, "sect_requests": 0, "pages": [], "drift": 0}
+    sect_pred = sect_match = 0
+    maxobs = {"treepages": 0, "carrierpages": 0, "freesizes": 0}
+    for (kind, name, workers, to), r, results in res:
+        chk.add_tlc(name, r)
+        if r.violated:
+            chk.violation("the %s violates %s" % ("housekeeping model StoreTree at the real constants" if kind == "tree"
+                                                  else "section arithmetic StoreSect", r.violated),
+                          r.trace_text, key={"model": name, "inv": r.violated})
+            allok = False
+            continue
+        if not results:
+            raise vlib.MachineryError("%s exported no behaviour:\n%s" % (name, r.out[-1500:]))
+        for job, (verdict, idx, why, rv) in results:
+            if verdict == "error":
+                raise vlib.MachineryError("scale history %s: %s" % (job["name"], why))
+            chk.states += rv.distinct
+            chk.transitions += rv.states
+            chk.traces += 1
+            chk.case(("scale", job["name"], job["gc"], chk.seed % 8), nontrivial=True)
+            obs = _notes(job["trace"])
+            for k in maxobs:
+                maxobs[k] = max(maxobs[k], obs[k])
+            if job["kind"] == "tree":
+                rec = job["rec"]
+                labels |= set(rec["labels"])
+                info["tree_behaviours"] += 1
+                info["tree_operations"] += job["nops"]
+                drift = (obs["treepages"], obs["carrierpages"]) != (rec["nodepages"], rec["carpages"])
+                info["drift"] += 1 if drift else 0
+                info["pages"].append({"scenario": job["name"], "distinct_free_sizes_model": rec["maxkeys"],
+                                      "distinct_free_sizes_seen": obs["freesizes"], "nodes_model": rec["maxnodes"],
+                                      "tree_pages_model": rec["nodepages"], "tree_pages_seen": obs["treepages"],
+                                      "carrier_pages_model": rec["carpages"], "carrier_pages_seen": obs["carrierpages"]})
+                if len(chk.samples) < 8 and info["tree_behaviours"] <= 2:
+                    chk.sample({"scale_history": job["name"], "operations": job["nops"], "gc": job["gc"], "verdict": verdict,
+                                "model": {k: rec[k] for k in ("rq", "nodepages", "carpages", "maxnodes", "maxkeys")}, "seen": obs})
+            else:
+                info["sect_scripts"] += 1
+                info["sect_requests"] += len(job["entries"])
+                want = {e["n"]: e["usable"] for e in job["entries"]}
+                try:
+                    with open(job["trace"]) as fh:
+                        for line in fh:
+                            if line.startswith('{"ev":"Alloc"'):
+                                e = json.loads(line)
+                                if e["n"] in want:
+                                    sect_pred += 1
+                                    sect_match += 1 if e["size"] == want[e["n"]] else 0
+                except (OSError, ValueError):
+                    pass
+                if info["sect_scripts"] == 1:
+                    chk.sample({"fresh_section_sweep": job["name"], "requests": [e["n"] for e in job["entries"]][:12] + ["..."],
+                                "script_lines": job["nops"], "verdict": verdict})
+            if verdict == "accepted":
+                continue
+            allok = False
+            ev = _read_events(job["trace"], max(1, idx - 8), idx)
+            key = {"mode": "scale", "history": job["name"], "gc": job["gc"], "why": _why_kind(why)}
+            detail = {"why": why, "event_index": idx, "events": ev, "script": job["script"],
+                      "script_head": open(job["script"]).read()[:1500]}
+            chk.violation("history at scale is not a behaviour of StoreAbs: %s" % why, detail, key=key)
+    info["sect_sizes_as_modelled"] = "%d of %d" % (sect_match, sect_pred)
+    info["seen_max"] = maxobs
+    chk.extra["scale"] = info
+    if allok:
+        missing = [g for g in SCALE_LABELS if g not in labels]
+        if missing:
+            raise vlib.MachineryError("behaviours at the real constants never take: %s (vacuous)" % missing)
+        if maxobs["treepages"] < 2 or maxobs["carrierpages"] < 2 or maxobs["freesizes"] < 257:
+            raise vlib.MachineryError("the real allocator never filled a housekeeping page in the scale histories: %s" % maxobs)
+        if sect_pred == 0 or sect_match * 2 < sect_pred:
+            raise vlib.MachineryError("fresh-section sweep: only %d of %d blocks had the modelled size (not served from "
+                                      "fresh sections?)" % (sect_match, sect_pred))
+    chk.extra["scale_subcases_reached"] = sorted(labels)
+
+
 # --------------------------------------------------------------------------- entry
 
 def run(chk, tier):
@@ -400,7 +597,9 @@ def run(chk, tier):
                 "against StoreAbs: every history of the StoreGen configurations (all sequences of "
                 "alloc/free/resize/recode/write/set-root/collect up to the depth bound over abstract size classes) under "
                 "one or more assignments of class-boundary byte counts, plus random histories (distinct by seed, gc mode, "
-                "size profile); random histories count as non-trivial when a collection occurred")
+                "size profile), plus the histories at scale exported by TLC from StoreTreeGen (hundreds of distinct free "
+                "sizes, distinct by scenario) and StoreSect (every request size next to a page-count boundary of a fresh "
+                "section, distinct by order variant); random histories count as non-trivial when a collection occurred")
     chk.exhaustive = False
     chk.assumptions += [
         "the harness observes the allocator only through its public API (stoAlloc, stoFree, stoResize, stoRecode, stoSize, "
@@ -413,16 +612,19 @@ def run(chk, tier):
     # the model runs and the runs against the real allocator are independent: do them side by side
     # (C10_STAGES=replay,random restricts a run to some stages; used only by the self-tests with mutated
     # sources, where the model runs -- which do not depend on the C code -- would be repeated for nothing)
-    stages = os.environ.get("C10_STAGES", "models,replay,random").split(",")
-    with ThreadPoolExecutor(max_workers=2) as ex:
+    stages = os.environ.get("C10_STAGES", "models,replay,random,scale").split(",")
+    with ThreadPoolExecutor(max_workers=3) as ex:
         fm = ex.submit(model_runs, tier, work) if "models" in stages else None
+        fs = ex.submit(scale_runs, tier, work, drv, chk.seed) if "scale" in stages else None
         if "replay" in stages:
             replay_histories(chk, drv, work, tier)
         if "random" in stages:
             random_histories(chk, drv, work, tier)
+        if fs:
+            scale_apply(chk, fs.result())
         if fm:
             model_apply(chk, *fm.result())
-    if set(stages) != {"models", "replay", "random"}:
+    if set(stages) != {"models", "replay", "random", "scale"}:
         chk.assumptions.append("PARTIAL RUN: C10_STAGES=%s" % ",".join(stages))
 
 
